@@ -42,6 +42,10 @@ pub fn run_functions(g: &GS, names: &[String], weighted: bool, pick: usize) -> V
         Ok(m) => sp(m),
         Err(e) => format!("Err({:?})", e.kind),
     }));
+    out.push(("all_pairs(cutoff,distances)", match dijkstra::all_pairs(g, weighted, None, Some(2.5), false, false) {
+        Ok(m) => sp(m),
+        Err(e) => format!("Err({:?})", e.kind),
+    }));
     out.push(("all_pairs(distances)", match dijkstra::all_pairs(g, weighted, None, None, false, false) {
         Ok(m) => sp(m),
         Err(e) => format!("Err({:?})", e.kind),
